@@ -26,6 +26,7 @@ CONSTANTS
   Wiring = "@@WIRING@@"
   TTLTicks = 3
   MaxTicks = @@MAXTICKS@@
+  Faults = {@@FAULTS@@}
   Emit = @@EMIT@@
 INIT Init
 NEXT Next
